@@ -260,3 +260,18 @@ Proof.
       rewrite B. reflexivity.
     + rewrite Z.ones_spec_high by lia. rewrite !andb_false_r. reflexivity.
 Qed.
+
+Lemma shl_mask_canon s c y : 0 <= s < 256 ->
+  wshl s (wand c y) = wshl s (wand (Z.land c (Z.ones (256 - s))) y).
+Proof.
+  intros Hs. unfold wand, wshl, wrap.
+  destruct (Z.ltb_spec s 256) as [_|?]; [|lia].
+  unfold W. rewrite <- !Z.land_ones by lia. rewrite <- !Z.shiftl_mul_pow2 by lia.
+  apply Z.bits_inj'; intros n Hn.
+  rewrite !Z.land_spec. destruct (Z_lt_le_dec n s) as [L|L].
+  - rewrite !Z.shiftl_spec_low by lia. reflexivity.
+  - rewrite !Z.shiftl_spec by lia. rewrite !Z.land_spec.
+    destruct (Z_lt_le_dec n 256) as [L2|L2].
+    + rewrite (Z.ones_spec_low (256 - s)) by lia. rewrite andb_true_r. reflexivity.
+    + rewrite (Z.ones_spec_high 256) by lia. rewrite !andb_false_r. reflexivity.
+Qed.
